@@ -545,10 +545,11 @@ Lemma nonvacuous_c18 :
   wf_init 100 nv_cfg nv_ds /\
   let '(s, _, st) := run_future 80 nv_cfg nv_ds [0;1;2;0;1;2;0;1;2;0;1;2;0;1;2;0;1;2;0;1;2;0;1;2;0;1;2;0;1;2;0;1;2;0;1;2;0;0;0;0;0;0;0;0;0;0] in
   st = SDone /\ fcount (sh s) = 1 /\ freed (sh s) = 1 /\ refc (sh s) = 0 /\
-  map (fun th => rev (res th)) (threads s) = [[(r_func, 1)]; [(r_get, 7)]; [(r_wait, 1); (r_dealloc, 1)]].
+  map (fun th => rev (res th)) (threads s) = [[(r_func, 1)]; [(r_get, 7); (r_dealloc, 1)]; [(r_wait, 1)]].
 Proof.
   split.
-  - unfold wf_init, nv_ds, nv_cfg, refc0, boundary, tokbit; cbn. repeat split; try lia; try (left; reflexivity); try (right; reflexivity);
-      repeat constructor; cbn; try lia; auto.
+  - unfold wf_init, nv_ds, nv_cfg, refc0. split.
+    + apply Forall_cons; [|apply Forall_cons; [|apply Forall_cons; [|apply Forall_nil]]]; unfold boundary, tokbit; cbn; intuition lia.
+    + cbn. repeat split; lia.
   - vm_compute. repeat split; reflexivity.
 Qed.
